@@ -243,20 +243,36 @@ def apply_table():
     from cij.util import c_
     seen = {}
 
-    def fake_fill(df, **kw):
-        seen["df"], seen["kw"] = df.copy(), kw
+    import inspect
+    real_sig = inspect.signature(fill.fill_cij)
+    defaults = {k: p.default for k, p in real_sig.parameters.items() if p.default is not inspect.Parameter.empty}
+
+    def fake_fill(*a, **kw):
+        # however the call is spelled (keywords, positional arguments), what counts is the value every parameter of the REAL fill_cij receives
+        ba = real_sig.bind(*a, **kw)
+        first = list(real_sig.parameters)[0]
+        df = ba.arguments[first]
+        seen["df"] = df.copy()
+        seen["kw"] = dict(defaults, **{k: v for k, v in ba.arguments.items() if k != first})
         out = df.copy()
         out["c22"] = [7.0 + i for i in range(len(df))]
         out["c12"] = out["c12"] + 0.5          # the solve may move a tabulated component (soft least squares)
         out = out.drop("c44", axis=1)
         return out
-    data = ed.ElastData(100.0, 3, 50.0, [ed.ElastVolumeData(10.0 * i, {c_(1, 1): 1.0 + i, c_(1, 2): 2.0 + i, c_(4, 4): 3.0 + i}) for i in range(3)], [])
     from contracts.nonshear_env import patched
-    sym = {"system": "cubic", "ignore_rank": True, "drop_atol": 1e-3}
-    with patched(fill, fill_cij=fake_fill):          # also redirects a module-level `from cij.util.fill import fill_cij` elsewhere
-        ed.apply_symetry_on_elast_data(data, sym)
-    if seen.get("kw") != {"system": "cubic", "ignore_rank": True, "drop_atol": 1e-3}:
-        return core.refuted("callsite", "fill_cij called with %r" % (seen.get("kw"),), witness_id="apply-kw", replay={"reproduced": True})
+    for sym in ({"system": "cubic", "ignore_rank": True, "drop_atol": 1e-3}, {"system": "hexagonal", "residual_atol": 0.25},
+                {"system": "trigonal7", "ignore_residuals": True, "drop_atol": 1e-5, "residual_atol": 2.0}, {"system": "cubic"}):
+        data = ed.ElastData(100.0, 3, 50.0, [ed.ElastVolumeData(10.0 * i, {c_(1, 1): 1.0 + i, c_(1, 2): 2.0 + i, c_(4, 4): 3.0 + i}) for i in range(3)], [])
+        seen.clear()
+        try:
+            with patched(fill, fill_cij=fake_fill):          # also redirects a module-level `from cij.util.fill import fill_cij` elsewhere
+                ed.apply_symetry_on_elast_data(data, dict(sym))
+        except TypeError as e:
+            return core.refuted("callsite", "apply_symetry_on_elast_data calls fill_cij in a way its signature does not accept (%s)" % e, witness_id="apply-call", replay={"reproduced": True})
+        if seen.get("kw") != dict(defaults, **sym):
+            diff = {k: (seen.get("kw", {}).get(k), v) for k, v in dict(defaults, **sym).items() if seen.get("kw", {}).get(k) != v}
+            return core.refuted("callsite", "with the symmetry settings %r fill_cij receives %r (parameter: (received, configured))" % (sym, diff), witness_id="apply-kw",
+                                replay={"reproduced": True, "settings": sym})
     if list(seen["df"].columns) != ["c11", "c12", "c44"] or seen["df"]["c12"].tolist() != [2.0, 3.0, 4.0]:
         return core.refuted("callsite", "table handed to fill_cij: %r" % (seen["df"],), witness_id="apply-df", replay={"reproduced": True})
     for i, v in enumerate(data.volumes):
@@ -282,7 +298,17 @@ def bounded_fill(s, fill):
                 coef[int(rnd.randint(0, nvol)), int(rnd.randint(0, len(basis)))] = 0.0
             if trial % 3 == 2 and len(basis) > 1:                 # an independent (symmetry-FREE) constant that happens to vanish at every volume: the supplied zeros pin it
                 coef[:, int(rnd.randint(0, len(basis)))] = 0.0
+            whole = (trial % 5 == 4)
+            if whole:
+                # a table of WHOLE numbers (kbar tables are printed that way; pandas types such columns int64): integer multiples of the basis's common denominator
+                den = 1
+                for v_ in laue.invariant_basis(system):
+                    for x_ in v_:
+                        den = int(sp.ilcm(den, sp.Rational(x_).q))
+                coef = den * rnd.randint(5, 1500, size=(nvol, len(basis))).astype(float) * rnd.choice([1, 1, -1], size=(nvol, len(basis)))
             tens = coef @ basis                                   # (nvol, 21) invariant tensors
+            if whole:
+                tens = numpy.rint(tens)
             # a sufficient subset: greedily pick columns until the restricted basis has full rank
             order = rnd.permutation(21)
             chosen = []
@@ -297,7 +323,7 @@ def bounded_fill(s, fill):
             df = pandas.DataFrame({"V": numpy.linspace(600, 400, nvol)})
             for k in cols:
                 name = NAMES[k].upper() if rnd.rand() < 0.3 else NAMES[k]
-                df[name] = tens[:, k]
+                df[name] = tens[:, k].astype("int64") if whole else tens[:, k]
             # row labels are not part of the data: tables that were sorted, filtered, concatenated or re-labelled before filling (any pandas index)
             how = trial % 4
             if how == 1 and nvol > 1:
